@@ -512,3 +512,19 @@ def pulse_geometry_violations(m):
             if np.linalg.norm(e - far) > tol:
                 out.append(('PULSE-FAREND', 'pulse %d: far end %s of half %d is not the other end %s of its segment' % (p.idx + 1, np.round(e, 5), h, np.round(far, 5))))
     return out
+
+
+def input_power(m):
+    """time-average power delivered by the sources, from the voltages applied and the solved currents only:
+    sum of Re(V I*)/2 (independent of Excitation.power / Mininec.power)"""
+    return float(sum(0.5 * (complex(s.voltage) * np.conj(m.current[s.idx])).real for s in m.sources))
+
+
+def rotate_voltages(srcs, c=0.6 - 0.8j):
+    """all source voltages multiplied by a complex constant of magnitude 1: relative quantities are unchanged,
+    but no voltage is purely real any more"""
+    out = []
+    for s in srcs:
+        v = cplx(s['v']) * c
+        out.append(dict(s, v=[v.real, v.imag]))
+    return out
